@@ -1,8 +1,8 @@
 (** C04 — load, save, load again: foreign and legacy input is normalised without loss.
     Statements only; proofs live in Proofs/FontRTP.v and Proofs/FontToyP.v. *)
 Require Import Norad.Model.GlifSpec Norad.Model.GlifEncode Norad.Proofs.GlifEncodeP Norad.Proofs.GlifRoundtripP Norad.Proofs.GlifFullP.
-Require Import Norad.Model.Base Norad.Model.FontRT Norad.Model.FontToy Norad.Model.FontNum Norad.Model.FontReal Norad.Model.FontRealPlist
-               Norad.Proofs.FontRTP Norad.Proofs.FontToyP Norad.Proofs.FontNumP Norad.Proofs.FontRealP.
+Require Import Norad.Model.Base Norad.Model.FontRT Norad.Model.FontToy Norad.Model.FontNum Norad.Model.FontReal Norad.Model.FontRealPlist Norad.Model.FontRealFiles
+               Norad.Proofs.FontRTP Norad.Proofs.FontToyP Norad.Proofs.FontNumP Norad.Proofs.FontRealP Norad.Proofs.FontRealFilesP.
 Open Scope N_scope.
 
 (** whatever the format of the input (1, 2 or 3), a loaded font says format 3 *)
@@ -138,3 +138,61 @@ Theorem C04_fixed_point_real_plist_files : forall pf ff ff3 fi fh (K4 : codecs4)
 Proof. exact fixed_point_real_plist. Qed.
 Example C04_real_codecs4_satisfiable : codecs4_ok id_codecs4 /\ codecs4_closed id_codecs4.
 Proof. split; [exact id_codecs4_ok|exact id_codecs4_closed]. Qed.
+
+(** ---------- closedness asked of one tree ----------
+    A real lib.plist / kerning.plist / layerinfo.plist reader is not closed: it also returns values
+    its writer does not represent (a non-finite <real>, a colour beyond three decimals, a kerning
+    value -0.0).  [sig_closed_at S t] asks closedness of these three readers for the files of the
+    tree [t] only, and the fixed point holds for that tree. *)
+Theorem C04_fixed_point_at_tree : forall (S : sig), sig_ok S -> forall t : tree S, sig_closed_at S t ->
+  forall o (f : font S) mc m,
+  load S t = Ok f -> t_meta S t = Some mc -> dec (P_meta S) mc = Some m -> m_version m = 3 ->
+  Forall (fun l => Forall (glyph_entry_ok S) (l_glyphs l)) (f_layers S f) ->
+  exists t', save S o f = Ok t' /\ exists f', load S t' = Ok f' /\ font_equiv S f f'.
+Proof. exact fixed_point_at. Qed.
+
+(** ---------- every file through the plist tree (Model/FontRealFiles.v; see Props/C01.v) ----------
+    Proved, not assumed, on top of what C04_fixed_point_real lists: [codecs_ok] of the instance,
+    and closedness of the metainfo, layercontents, contents and groups readers
+    ([C04_all_files_closed_base]).
+
+    Hypotheses that remain, and why:
+    - [files_in_domain t]: what lib.plist, kerning.plist and the layerinfo.plist files of the INPUT
+      tree are read as lies in their writers' domains —
+        lib values            — the plist reader accepts <real>inf</real> / NaN (f64::from_str),
+                                the writer's round trip (H_ff) is stated for finite numbers; the
+                                other conditions of [wf_pv_real] (integer range, byte range, date
+                                shape, no repeated key) hold of everything the reader returns, they
+                                are not separated out here;
+        layer colour          — a colour with more than three decimals is rounded by the next save
+                                (as for glyph colours: the exact fixed point needs the normal form);
+        kerning numbers       — non-finite values, and -0.0 which is written as the integer 0;
+    - [glyph_rt_domain] for every loaded glyph (see C04_fixed_point_real);
+    - [L1_glif], and f64::from_bits(v).to_bits() == v. *)
+Theorem C04_all_files_closed_base : forall pf ff ff3 fi fh to_bits of_bits lw,
+  L1_glif pf ff ff3 fi fh -> codecs_closed_base (all_files pf ff ff3 fi to_bits of_bits lw).
+Proof. intros pf ff ff3 fi fh tb ob lw (A & B & _ & D). apply all_files_closed_base; assumption. Qed.
+Theorem C04_fixed_point_real_all_files : forall pf ff ff3 fi fh to_bits of_bits lw,
+  L1_glif pf ff ff3 fi fh -> (forall v, to_bits (of_bits v) = v) ->
+  forall o (t : tree (real_sig pf ff ff3 fi fh (all_files pf ff ff3 fi to_bits of_bits lw)))
+         (f : font (real_sig pf ff ff3 fi fh (all_files pf ff ff3 fi to_bits of_bits lw))) mc m,
+  load (real_sig pf ff ff3 fi fh (all_files pf ff ff3 fi to_bits of_bits lw)) t = Ok f ->
+  t_meta _ t = Some mc ->
+  dec (P_meta (real_sig pf ff ff3 fi fh (all_files pf ff ff3 fi to_bits of_bits lw))) mc = Some m -> m_version m = 3 ->
+  files_in_domain pf ff ff3 fi fh (all_files pf ff ff3 fi to_bits of_bits lw) t ->
+  Forall (fun l => Forall (fun e : str * str * glyph => glyph_rt_domain pf ff3 (snd e)) (l_glyphs l)) (f_layers _ f) ->
+  exists t', save (real_sig pf ff ff3 fi fh (all_files pf ff ff3 fi to_bits of_bits lw)) o f = Ok t' /\
+             exists f', load (real_sig pf ff ff3 fi fh (all_files pf ff ff3 fi to_bits of_bits lw)) t' = Ok f' /\
+                        font_equiv (real_sig pf ff ff3 fi fh (all_files pf ff ff3 fi to_bits of_bits lw)) f f'.
+Proof. exact fixed_point_all_files. Qed.
+(** the same for any [codecs]: closedness of lib / kerning / layerinfo asked of the input tree only *)
+Theorem C04_fixed_point_real_at : forall pf ff ff3 fi fh (K : codecs),
+  L1_glif pf ff ff3 fi fh -> codecs_ok K -> codecs_closed_base K ->
+  forall o (t : tree (real_sig pf ff ff3 fi fh K)) (f : font (real_sig pf ff ff3 fi fh K)) mc m,
+  load (real_sig pf ff ff3 fi fh K) t = Ok f ->
+  t_meta _ t = Some mc -> dec (P_meta (real_sig pf ff ff3 fi fh K)) mc = Some m -> m_version m = 3 ->
+  files_in_domain pf ff ff3 fi fh K t ->
+  Forall (fun l => Forall (fun e : str * str * glyph => glyph_rt_domain pf ff3 (snd e)) (l_glyphs l)) (f_layers _ f) ->
+  exists t', save (real_sig pf ff ff3 fi fh K) o f = Ok t' /\
+             exists f', load (real_sig pf ff ff3 fi fh K) t' = Ok f' /\ font_equiv (real_sig pf ff ff3 fi fh K) f f'.
+Proof. exact fixed_point_real_at. Qed.
